@@ -42,8 +42,8 @@ fn graph_hash(c: &CaseSpec) -> u64 {
     let mut h = Fnv::new();
     h.usize(c.graph.fns.len());
     for f in &c.graph.fns {
-        h.u8(f.reads);
-        h.u8(f.writes);
+        h.u64(f.reads as u64);
+        h.u64(f.writes as u64);
     }
     for e in &c.graph.calls {
         h.usize(e.from);
